@@ -373,8 +373,12 @@ BASE_SHEETS = [
     'a {\n  color: red;\n  margin: 0 1px\n}\n\nb, c > d {\n  top: 1px\n}\n',
     '@media print {\n\ta { left: 0 }\n}\n.x { width: 10% }\n',
     '/* c1 */\n@import "x.css";\n\n\na[b="c"] { content: "q" }\n',
+    'a::before, b:hover::after {\n  top: 0\n}\nc[d="e"]::first-line,\n  f:not(.g)::selection { left: 0 }\n',
+    '@media tv {\n  x::after { top: 0 }\n}\n@page :first { margin: 0 }\n',
 ]
-BAD = ['$', '~', '}', ')', ']', '@zz', '!', '"s"', '%', '&', '|', '1px', '#']
+BAD = ['$', '~', '}', ')', ']', '@zz', '!', '"s"', '%', '&', '|', '1px', '#',
+       # tokens the selector parser joins from several source tokens (their report must still point at the first character)
+       ':lang(x)', '::part(x)', ':nth-child(2n)', ':not(a)', '::', ':x:', 'p|q', '*|*', '|a', '.c', '.1', '[a=b]', '[a', ':hover', '::after', 'a(b)', '*']  # fmt: skip
 
 
 def check_errpos(ctx, cssutils, parser, text, tag=None):
@@ -429,7 +433,8 @@ def stream_errpos(ctx, count):
         base = rng.choice(BASE_SHEETS)
         pos = rng.randrange(len(base) + 1)
         bad = rng.choice(BAD)
-        text = base[:pos] + ' ' + bad + ' ' + base[pos:]
+        glue = rng.choice([(' ', ' '), (' ', ' '), ('', ''), ('', ' '), (' ', '')])
+        text = base[:pos] + glue[0] + bad + glue[1] + base[pos:]
         check_errpos(ctx, cssutils, parser, text, 'errpos|%s|%d' % (bad, pos))
 
 
